@@ -37,7 +37,7 @@ def tasks(tier):
 
 def conformance(tier):
     # class-valued parameters that arrive after the function has been used (scripts 7 / 8 of the register/unregister suite)
-    return [dict(name="native:c14", argv=["c14_types.py"], violation_on_fail=True), dict(name="native:c05", argv=["seq_suite.py", "c05"], violation_on_fail=True)]
+    return [dict(name="native:c14", argv=["c14_types.py"], violation_on_fail=True), dict(name="native:c14order", argv=["c14_order.py"], violation_on_fail=True), dict(name="native:c05", argv=["seq_suite.py", "c05"], violation_on_fail=True)]
 
 
 def concretise(obname, detail, task_result, native):
